@@ -1,6 +1,7 @@
 import Netconan.Model.Lines
 import Netconan.Model.Decoders
 import Netconan.Proofs.WordsNoSurvival
+import Netconan.Proofs.QuadCheck
 import Netconan.Model.Md5
 import Netconan.Pinned.Patterns
 import Netconan.Generated.Patterns
@@ -155,6 +156,7 @@ def faCmd (env : FaEnv) (objs : List (String × FaObj)) (ws : List String) : Opt
       | .type7 => "cisco_type7" | .numeric => "numeric" | .hex => "hexadecimal" | .md5 => "md5"
       | .text => "text" | .sha512 => "sha512" | .jun9 => "juniper_type9"), objs)
   | ["type7", salt, v] => some ("ok " ++ showCps (type7 salt.toNat! (parseCps v)), objs)
+  | ["quad", v] => some (if NoSurvival.isQuadB (parseCps v) then "ok 1" else "ok 0", objs)
   | ["t7dec", v] => some ("ok " ++ showCps (type7Decode (parseCps v)), objs)
   | ["unhex", v] => some ("ok " ++ showCps (unhex (parseCps v)), objs)
   | ["decval", v] => some (s!"ok {decVal (parseCps v)}", objs)
